@@ -34,7 +34,7 @@ m = {
     },
     "engines": [{
         "name": "lean-model+correspondence", "path": "/verif/check", "serves_properties": sorted(cfg.PROPS),
-        "kind_free_text": "Lean 4 theorems about a hand-written executable model of dnssector (lean/DnsModel); the model is tied to /repo on every run by (a) regenerating constants and the C function table from the sources and (b) differential execution of the real code (Rust harness, hooks on) and the compiled Lean driver on generated cases; per-property oracles (reference decoder / recogniser / synthesiser in Python) search for a concrete failing input",
+        "kind_free_text": "Lean 4 theorems about a hand-written executable model of dnssector (lean/DnsModel); the model is tied to /repo on every run by (a) regenerating constants and the C function table from the sources, (a') re-translating the validator (DNSSector::new/parse/parse_rr/parse_opt/..., both name walkers) and the header API from the Rust text with rs2lean.py and proving the translation equal to the model (Tie/*.lean), and (b) differential execution of the real code (Rust harness, hooks on) and the compiled Lean driver on generated cases; per-property oracles (reference decoder / recogniser / synthesiser in Python) search for a concrete failing input",
     }],
     "checks": checks,
     "not_applicable": [],
